@@ -22,6 +22,7 @@ mod cases;
 mod doc;
 mod ep;
 mod gallina;
+mod large;
 mod s2s;
 
 use dsverif::live;
@@ -101,6 +102,16 @@ fn gen_all(w: &cases::World, seed: u64, thorough: bool, out: &mut dyn std::io::W
     let rounds = if thorough { 100 } else { 12 };
     for round in 0..rounds {
         for op in &w.ops {
+            let kind = w.info(op).large;
+            // the large-scope slice: few requests per operation
+            let my_rounds = match kind {
+                0 => rounds,
+                1 | 3 => if thorough { 8 } else { 2 },
+                _ => if thorough { 3 } else { 1 },
+            };
+            if round >= my_rounds {
+                continue;
+            }
             let pick = match round % 5 {
                 0 => cases::Pick::RequiredOnly,
                 1 => cases::Pick::All,
@@ -109,13 +120,17 @@ fn gen_all(w: &cases::World, seed: u64, thorough: bool, out: &mut dyn std::io::W
             let c = cases::build_req(w, op, &mut r, pick, None, None);
             run_case(w, &c, &mut bufs[1]);
             // each required query parameter left out in turn, every other round
+            // (of a large operation: the first and the last one)
             if round % 2 == 0 {
-                let required: Vec<String> = op
+                let mut required: Vec<String> = op
                     .params
                     .iter()
                     .filter(|p| p.required && p.loc == doc::Loc::Query)
                     .map(|p| p.name.clone())
                     .collect();
+                if kind != 0 && required.len() > 2 {
+                    required = vec![required[0].clone(), required[required.len() - 1].clone()];
+                }
                 for name in required {
                     let pick = if round % 4 == 0 { cases::Pick::Some } else { cases::Pick::All };
                     let c = cases::build_req(w, op, &mut r, pick, Some(&name), None);
@@ -124,12 +139,38 @@ fn gen_all(w: &cases::World, seed: u64, thorough: bool, out: &mut dyn std::io::W
             }
         }
     }
+    // every error status a handler can return (quick: the boundaries)
+    for op in w.ops.iter().filter(|op| w.info(op).large == 3) {
+        let mut codes: Vec<u16> = vec![0, 99, 255, 256, 399, 600, 999, 1000, 65535];
+        if thorough {
+            codes.extend(400..=599);
+        } else {
+            codes.extend([400, 401, 404, 415, 416, 417, 418, 419, 431, 451, 498, 499, 500, 501, 511, 512, 598, 599]);
+        }
+        for code in codes {
+            let mut c = cases::build_req(w, op, &mut r, cases::Pick::RequiredOnly, None, None);
+            for s in c["sent"].as_array_mut().unwrap() {
+                if s["name"] == "code" {
+                    s["value"] = json!(code);
+                }
+            }
+            run_case(w, &c, &mut bufs[1]);
+        }
+    }
     // one integer / boolean parameter given a text its documented schema
     // refuses: the framework's extractor error must be the documented one
     let ill_rounds = if thorough { 12 } else { 2 };
-    for _ in 0..ill_rounds {
+    for round in 0..ill_rounds {
         for op in &w.ops {
-            for name in cases::illtypable(w, op) {
+            let kind = w.info(op).large;
+            let mut names = cases::illtypable(w, op);
+            if kind != 0 {
+                if round > 0 {
+                    continue;
+                }
+                names.truncate(1);
+            }
+            for name in names {
                 let c = cases::build_req(w, op, &mut r, cases::Pick::Some, None, Some(&name));
                 run_case(w, &c, &mut bufs[1]);
             }
